@@ -673,6 +673,11 @@ class Evaluator:
                 return "".join(head) == pre
             if f.attr in ("isdigit", "isalpha", "isupper", "islower", "isalnum") and isinstance(recv, (str, AStr)) and not args:
                 c = self.as_astr(recv).concrete()
+                if c is None and f.attr == "isdigit":
+                    # an order unit is exactly one character and that character is a digit (the reader appends str(order))
+                    us = self.as_astr(recv).units()
+                    if us and all((isinstance(u, tuple) and u[0] == "order") or (isinstance(u, str) and u.isdigit()) for u in us):
+                        return True
                 if c is None:
                     raise Unsupported("%s on an abstract string" % f.attr)
                 return getattr(c, f.attr)()
